@@ -43,10 +43,12 @@ structure Fixes where
   batch : Bool
   /-- fixes/C15-colmajor-parse.diff -/
   col : Bool
+  /-- fixes/C15-sparse-rows-not-colkw.diff -/
+  rowdict : Bool
 deriving DecidableEq, Repr
 
-def Fixes.all : Fixes := ⟨true, true, true⟩
-def Fixes.none : Fixes := ⟨false, false, false⟩
+def Fixes.all : Fixes := ⟨true, true, true, true⟩
+def Fixes.none : Fixes := ⟨false, false, false, false⟩
 
 namespace PyVal
 
@@ -226,8 +228,13 @@ deriving Repr
 
 def lenOr0 (v : PyVal) : Nat := v.len
 
+/-- `any(k in item for k in ['action','action_prob','pmf'])` -/
+def isHint : PyVal → Bool
+  | .dict _ ks _ => ks.contains "action" || ks.contains "action_prob" || ks.contains "pmf"
+  | _ => false
+
 /-- `raise_if_not_valid_out(out, n)` does not raise (any exception inside it counts as invalid) -/
-def validOut (out : PyVal) (n : Nat) : Bool :=
+def validOut (fx : Fixes) (out : PyVal) (n : Nat) : Bool :=
   match out with
   | .none => false
   | .dict _ _ vs => match vs with | v :: _ => n == lenOr0 v | [] => false
@@ -237,7 +244,9 @@ def validOut (out : PyVal) (n : Nat) : Bool :=
       if xs.all PyVal.isDict then
         match keysEq x l with
         | .ok true => n == xs.length || n == lenOr0 x
-        | .ok false => (match x with | .dict _ _ (v :: _) => n == lenOr0 v | _ => false)
+        | .ok false =>
+          if fx.rowdict && !isHint x then n == xs.length || n == lenOr0 x
+          else (match x with | .dict _ _ (v :: _) => n == lenOr0 v | _ => false)
         | .error _ => false
       else n == xs.length || n == lenOr0 x
     | _, _ => false
@@ -261,7 +270,7 @@ def method2 (L : Learner) (ctxs : List PyVal) (rows : List (List PyVal)) : Excep
   if ps.isEmpty then .error .coba else pure (.list .tmp ps)
 
 /-- `_safe_call('predict', …)`: the answer, the memoised method afterwards, and the calls made to the learner -/
-def safeCall (L : Learner) (method : Option Nat) (arg : Arg) : Except Err (PyVal × Nat) :=
+def safeCall (fx : Fixes) (L : Learner) (method : Option Nat) (arg : Arg) : Except Err (PyVal × Nat) :=
   match arg with
   | .single .. =>
     match method with
@@ -275,17 +284,17 @@ def safeCall (L : Learner) (method : Option Nat) (arg : Arg) : Except Err (PyVal
       let n := ctxs.length
       match L arg with
       | .ok out =>
-        if validOut out n then .ok (out, 1)
+        if validOut fx out n then .ok (out, 1)
         else match method2 L ctxs rows with
-          | .ok out2 => if validOut out2 n then .ok (out2, 2) else .error .coba
+          | .ok out2 => if validOut fx out2 n then .ok (out2, 2) else .error .coba
           | .error e => .error e
       | .error _ =>
         match method2 L ctxs rows with
-        | .ok out2 => if validOut out2 n then .ok (out2, 2) else .error .coba
+        | .ok out2 => if validOut fx out2 n then .ok (out2, 2) else .error .coba
         | .error e => .error e
 
 /-- the calls `_safe_call` makes to the learner (for "once per row") -/
-def safeCallTrace (L : Learner) (method : Option Nat) (arg : Arg) : List Arg :=
+def safeCallTrace (fx : Fixes) (L : Learner) (method : Option Nat) (arg : Arg) : List Arg :=
   match arg with
   | .single .. => [arg]
   | .batch ctxs rows =>
@@ -294,7 +303,7 @@ def safeCallTrace (L : Learner) (method : Option Nat) (arg : Arg) : List Arg :=
     | some _ => perRowArgs ctxs rows
     | Option.none =>
       match L arg with
-      | .ok out => if validOut out ctxs.length then [arg] else arg :: perRowArgs ctxs rows
+      | .ok out => if validOut fx out ctxs.length then [arg] else arg :: perRowArgs ctxs rows
       | .error _ => arg :: perRowArgs ctxs rows
 
 /-! ### layout and format detection (first call only) -/
@@ -310,7 +319,7 @@ def firstOf : Arg → Except Err Arg
   | _ => .error .index
 
 /-- `batch_order` up to the point where the one-row test call is needed: `some layout` = decided without it -/
-def batchOrderPre (pred : PyVal) (arg : Arg) (method : Nat) : Except Err (Option BLayout) :=
+def batchOrderPre (fx : Fixes) (pred : PyVal) (arg : Arg) (method : Nat) : Except Err (Option BLayout) :=
   if method = 2 then .ok (some .row)
   else match arg with
   | .single .. => .ok (some .not)
@@ -320,7 +329,7 @@ def batchOrderPre (pred : PyVal) (arg : Arg) (method : Nat) : Except Err (Option
     let isDictColKw ← (if allD then do
         let a ← getIdx pred 0; let b ← getIdx pred (-1)
         let e ← keysEq a b
-        pure (!e && pred.len == 2) else pure false)
+        pure (!e && pred.len == 2 && (!fx.rowdict || isHint a)) else pure false)
     let isDictRow ← (if allD then do
         let a ← getIdx pred 0; let b ← getIdx pred (-1)
         keysEq a b else pure false)
@@ -337,8 +346,8 @@ def batchOrderPre (pred : PyVal) (arg : Arg) (method : Nat) : Except Err (Option
         else pure (some (if d1 = nRows then .row else .col))
 
 /-- `batch_order`; `probe` is the predictor's answer to the one-row test call of the square case -/
-def batchOrder (probe : Except Err PyVal) (pred : PyVal) (arg : Arg) (method : Nat) : Except Err BLayout := do
-  match ← batchOrderPre pred arg method with
+def batchOrder (fx : Fixes) (probe : Except Err PyVal) (pred : PyVal) (arg : Arg) (method : Nat) : Except Err BLayout := do
+  match ← batchOrderPre fx pred arg method with
   | some lay => pure lay
   | Option.none =>
     let pp ← probe
@@ -346,8 +355,8 @@ def batchOrder (probe : Except Err PyVal) (pred : PyVal) (arg : Arg) (method : N
     pure (if l = 1 then .row else .col)
 
 /-- is the square-case test call made? (for the call trace) -/
-def probeMade (pred : PyVal) (arg : Arg) (method : Nat) : Bool :=
-  match batchOrderPre pred arg method with
+def probeMade (fx : Fixes) (pred : PyVal) (arg : Arg) (method : Nat) : Bool :=
+  match batchOrderPre fx pred arg method with
   | .ok Option.none => true
   | _ => false
 
@@ -631,29 +640,33 @@ def argActs : Arg → Acts
   | .single _ as => .single as
   | .batch _ rows => .batch rows
 
-/-- `SafeLearner.predict(context, actions)` -/
-def predict (fx : Fixes) (L : Learner) (st : State) (arg : Arg) : Except Err (Result × State) := do
+/-- the first lines of `SafeLearner.predict`: `_prev_actions != actions` decides whether the float copies are rebuilt;
+returns the state and the argument the learner is going to be given -/
+def prepare (fx : Fixes) (st : State) (arg : Arg) : State × Arg :=
   let acts := argActs arg
   let changed := match st.prev with
     | Option.none => true
     | some p => !pyEq p.toPy acts.toPy
   let st := if changed then { st with prev := some acts, safe := safeActs fx acts } else st
-  let sarg := withActs arg st.safe
-  let (pred, m) ← safeCall L st.method sarg
-  let st := { st with method := some m }
-  -- first call only: layout, kwargs, format
-  let st ← (match st.layout with
-    | some _ => pure st
-    | Option.none => do
-      let probe := (do let a1 ← firstOf sarg; let r ← safeCall L (some m) a1; pure r.1)
-      let lay ← batchOrder probe pred sarg m
-      let kw := hasKwargs pred lay
-      let fr ← firstRow pred lay kw
-      let firstActs ← (match sarg with
-        | .single _ as => pure as
-        | .batch _ rows => match rows with | r :: _ => pure r | [] => .error .index)
-      let f ← predFormat fx fr (some firstActs)
-      pure { st with layout := some lay, hasKw := kw, fmt := some f })
+  (st, withActs arg st.safe)
+
+/-- first call only: `_pred_batch`, `_pred_kwargs`, `_pred_format` -/
+def detect (fx : Fixes) (L : Learner) (st : State) (sarg : Arg) (pred : PyVal) (m : Nat) : Except Err State :=
+  match st.layout with
+  | some _ => pure st
+  | Option.none => do
+    let probe := (do let a1 ← firstOf sarg; let r ← safeCall fx L (some m) a1; pure r.1)
+    let lay ← batchOrder fx probe pred sarg m
+    let kw := hasKwargs pred lay
+    let fr ← firstRow pred lay kw
+    let firstActs ← (match sarg with
+      | .single _ as => pure as
+      | .batch _ rows => match rows with | r :: _ => pure r | [] => .error .index)
+    let f ← predFormat fx fr (some firstActs)
+    pure { st with layout := some lay, hasKw := kw, fmt := some f }
+
+/-- `_parse_pred` after the first-call detection -/
+def parse (fx : Fixes) (st : State) (sarg : Arg) (pred : PyVal) : Except Err (Result × State) :=
   match st.layout, st.fmt with
   | some lay, some f =>
     match lay, sarg with
@@ -669,18 +682,25 @@ def predict (fx : Fixes) (L : Learner) (st : State) (arg : Arg) : Except Err (Re
     | _, _ => .error .other      -- batched and unbatched calls are never mixed on one SafeLearner
   | _, _ => .error .other
 
+/-- the rest of `predict`, on the argument the learner is given -/
+def predictCore (fx : Fixes) (L : Learner) (st : State) (sarg : Arg) : Except Err (Result × State) := do
+  let (pred, m) ← safeCall fx L st.method sarg
+  let st := { st with method := some m }
+  let st ← detect fx L st sarg pred m
+  parse fx st sarg pred
+
+/-- `SafeLearner.predict(context, actions)` -/
+def predict (fx : Fixes) (L : Learner) (st : State) (arg : Arg) : Except Err (Result × State) :=
+  let (st1, sarg) := prepare fx st arg
+  predictCore fx L st1 sarg
+
 /-- the calls made to the learner by one `predict` -/
 def predictTrace (fx : Fixes) (L : Learner) (st : State) (arg : Arg) : List Arg :=
-  let acts := argActs arg
-  let changed := match st.prev with
-    | Option.none => true
-    | some p => !pyEq p.toPy acts.toPy
-  let safe := if changed then safeActs fx acts else st.safe
-  let sarg := withActs arg safe
-  let main := safeCallTrace L st.method sarg
-  match st.layout, safeCall L st.method sarg with
+  let (st1, sarg) := prepare fx st arg
+  let main := safeCallTrace fx L st1.method sarg
+  match st1.layout, safeCall fx L st1.method sarg with
   | Option.none, .ok (pred, m) =>
-    if probeMade pred sarg m then
+    if probeMade fx pred sarg m then
       match firstOf sarg with | .ok a1 => main ++ [a1] | .error _ => main
     else main
   | _, _ => main
@@ -822,5 +842,84 @@ def scripted (sp : Spec) (pol : Policy) : Learner
     | .single => .error .learner
     | .row => .ok (.list (.lrn 0) ((zipWithAns pol cs rows).map (fun r => renderSingle sp r.1 r.2)))
     | .col => .ok (renderCol sp (zipWithAns pol cs rows))
+
+end Coba.C15
+
+namespace Coba.C15
+
+/-! ### specification: what the property demands -/
+
+def Fmt.kind : Fmt → Kind
+  | .A | .dA => .AX | .AP | .dAP => .AP | .PM | .dPM => .PM
+
+/-- the `_pred_format` the learner's format must be recognised as -/
+def Spec.pfmt (sp : Spec) : PFmt := ⟨sp.fmt.kind, sp.fmt.hinted⟩
+
+/-- the offered action the learner names -/
+def Answer.action (ans : Answer) (actions : List PyVal) : PyVal := actions.getD ans.pick .none
+
+def emptyKw : PyVal := .dict .tmp [] []
+
+/-- what the evaluator must receive from an unbatched call answered with `ans` (and the rng state afterwards):
+the named action / the stated probability / the kwargs; for a PMF the draw of `CobaRandom.choicew` -/
+def wantSingle (sp : Spec) (s : Nat) (ans : Answer) (actions : List PyVal) : Except Err (Result × Nat) :=
+  let kw := if sp.kw then kwDict ans else emptyKw
+  match sp.fmt.kind with
+  | .AX => .ok (⟨ans.action actions, .none, kw⟩, s)
+  | .AP => .ok (⟨ans.action actions, ans.p, kw⟩, s)
+  | .PM =>
+    match choicew s actions (mkPmf sp.pmfTup ans.pmf) with
+    | .ok (s', a, p) => .ok (⟨a, p, kw⟩, s')
+    | .error e => .error e
+
+/-- a batched result seen as rows: actions, probabilities, kwargs keys and one column of values per key -/
+structure BatchView where
+  A : List PyVal
+  P : List PyVal
+  keys : List String
+  cols : List (List PyVal)
+
+def allItems : List PyVal → Option (List (List PyVal))
+  | [] => some []
+  | v :: vs => match v.items, allItems vs with | some x, some xs => some (x :: xs) | _, _ => Option.none
+
+def Result.view (r : Result) : Option BatchView :=
+  match r.a.items, r.p.items, r.kw with
+  | some A, some P, .dict _ ks vs => (allItems vs).map (fun cols => ⟨A, P, ks, cols⟩)
+  | _, _, _ => Option.none
+
+/-- the kwargs of a batch, per key the values of the rows in order (the keys are those of the first row; the rows of
+one batch have the same keys, so the default is never used) -/
+def wantKw (sp : Spec) (rows : List (Answer × List PyVal)) : List String × List (List PyVal) :=
+  if sp.kw then
+    match rows with
+    | [] => ([], [])
+    | (a0, _) :: _ => (a0.kwKeys, a0.kwKeys.map (fun k => rows.map (fun r => (lookupKey k r.1.kwKeys r.1.kwVals).getD .none)))
+  else ([], [])
+
+/-- what the evaluator must receive from a batched call: per row the named action and stated probability, or for
+PMFs the draws of `CobaRandom.choicew` made row after row from the one generator -/
+def wantBatch (sp : Spec) (s : Nat) (rows : List (Answer × List PyVal)) : Except Err (BatchView × Nat) :=
+  let kw := wantKw sp rows
+  match sp.fmt.kind with
+  | .AX => .ok (⟨rows.map (fun r => r.1.action r.2), rows.map (fun _ => .none), kw.1, kw.2⟩, s)
+  | .AP => .ok (⟨rows.map (fun r => r.1.action r.2), rows.map (fun r => r.1.p), kw.1, kw.2⟩, s)
+  | .PM =>
+    match choicewRows s (rows.map (·.2)) (rows.map (fun r => mkPmf sp.pmfTup r.1.pmf)) with
+    | .ok (s', A, P) => .ok (⟨A, P, kw.1, kw.2⟩, s')
+    | .error e => .error e
+
+/-- the memoised state after a call answered in format `sp` -/
+def stAfter (sp : Spec) (batched : Bool) (st : State) (rng : Nat) : State :=
+  { st with
+    rng := rng
+    method := some (if batched && sp.layout == .single then 2 else 1)
+    layout := some (if !batched then .not else if sp.layout == .col then .col else .row)
+    hasKw := sp.kw
+    fmt := some sp.pfmt }
+
+/-- the SafeLearner is fresh, or has already answered calls of this learner (same batching) -/
+def Inv (sp : Spec) (batched : Bool) (st : State) : Prop :=
+  (st.method = Option.none ∧ st.layout = Option.none) ∨ st = stAfter sp batched st st.rng
 
 end Coba.C15
